@@ -7,7 +7,7 @@
 use dsl::{
     common::*,
     configuration::AccessDeclaration,
-    core::{Id, SourceSpan},
+    core::Id,
 };
 
 /// Defines VarDecl type without the type information (e.g. input, output).
@@ -86,9 +86,9 @@ impl From<IncomplVarDecl> for VarDecl {
 
         Self {
             identifier: VariableIdentifier::Direct(DirectVariableIdentifier {
+                span: val.name.span.clone(),
                 name: Some(val.name),
                 address_assignment: val.loc,
-                span: SourceSpan::default(),
             }),
             var_type: VariableType::Var,
             qualifier: val.qualifier,
